@@ -82,9 +82,16 @@ def verdict(mut, opts, all_cols):
         if cx is False:
             return 'pass', 'extra columns are not checked'
         return 'unspecified', 'partial extra-column check'
-    if kind in ('add_row', 'remove_row'):
+    if kind in ('add_row', 'remove_row', 'key_crosses_condition'):
         if cond:
+            # the rows compared are those the condition keeps: the harness knows every key
+            if mut.get('filtered_counts_equal') is True and kind != 'key_crosses_condition':
+                return 'pass', 'the extra/missing row is filtered out by the condition on both sides'
+            if mut.get('filtered_counts_equal') is False:
+                return 'fail', 'different number of rows after the condition'
             return 'unspecified', 'row count under a condition'
+        if kind == 'key_crosses_condition':
+            return 'unspecified', 'no condition'
         return 'fail', 'different number of rows'
     if kind == 'swap_rows':
         if cond:
